@@ -259,13 +259,19 @@ static void check_bins(Run& run, const Geo& g)
   const double w_arc = g.ac ? (double)g.ac->get_tangential_sampling() : 0;
   const double zshift_first_ring = (g.Rn - 1) / 2.0 * g.spacing;
   const double gen_zshift = g.ge ? g.P(0, 0).z : 0;
+  // blocks: s and phi of the lines between crystals of a polygon are not monotone at large |t| (lines along a block face, lines cutting a corner):
+  // a property of the detector positions, which the coords clause compares one by one; no monotonicity demanded
+  const bool blocks = g.sc->get_scanner_geometry() == "BlocksOnCylindrical";
+  // negating the tangential position maps both detectors to the opposite ones: the scanner must be point symmetric (even number of blocks)
+  const bool point_symmetric = !blocks || (g.sc->get_num_transaxial_blocks() % 2 == 0);
+  if (!point_symmetric) ctx.count("configs_blocks_not_point_symmetric_no_antisymmetry_check");
 
   std::vector<DPP> dps;
   std::vector<Rep> row(T), prev_v(T);
   std::vector<double> prev_ax_m((size_t)V * T);
   std::map<int, std::vector<float>> tth_store;
   long long n_bins = 0, n_rt = 0, n_exact = 0, n_step = 0, n_wrap = 0, n_miss_edge = 0, n_miss_tang = 0, n_miss_wrapseg = 0, n_ge2 = 0, n_incomplete = 0,
-            n_asym_range = 0, n_tie = 0, n_screen = 0, n_flip = 0, n_points = 0, n_coord_rejected = 0, n_lor_rejected = 0, n_tth_avg = 0;
+            n_asym_range = 0, n_tie = 0, n_screen = 0, n_flip = 0, n_points = 0, n_coord_rejected = 0, n_lor_rejected = 0, n_tth_avg = 0, n_screen_v1 = 0, n_adjacent = 0, n_miss_adjacent = 0;
   bool badcast_reported = false, getlor_error_seen = false;
 
   auto seg_in = [&](int s) { return s >= smin && s <= smax; };
@@ -275,6 +281,9 @@ static void check_bins(Run& run, const Geo& g)
       const int amin = p.get_min_axial_pos_num(seg), amax = p.get_max_axial_pos_num(seg);
       const std::vector<int> axs = restricted ? uniq_in({ amin, amin + 1, (amin + amax) / 2, amax }, amin, amax) : range(amin, amax);
       const bool compressed = cyl.get_min_ring_difference(seg) != cyl.get_max_ring_difference(seg);
+      // is the mirror image of this segment (ring differences negated) a segment of the data?
+      const bool opposite_present = seg_in(-seg) && cyl.get_min_ring_difference(-seg) == -cyl.get_max_ring_difference(seg)
+                                    && cyl.get_max_ring_difference(-seg) == -cyl.get_min_ring_difference(seg);
       bool have_prev_ax = false;
       bool first_ax = true;
       for (int ax : axs)
@@ -332,6 +341,7 @@ static void check_bins(Run& run, const Geo& g)
                   bool have_ref = false;
                   const bool tie = ((t + g.vm - 1) % 2) != 0; // interleaving: the central LOR of the bin lies between two detectors
                   if (tie) ++n_tie;
+                  if (g.na && tie && std::abs(t) == g.D / 2 - 1) ++n_adjacent;
                   if (g.na || g.ge)
                     {
                       if (g.na) g.na->get_all_det_pos_pairs_for_bin(dps, b0, true);
@@ -359,6 +369,12 @@ static void check_bins(Run& run, const Geo& g)
                           have_ref = true;
                         }
                     }
+                  if (have_ref && V == 1 && g.vm > 1 && t % 2 != 0)
+                    {
+                      // a single view that mashes the whole half circle: the interleaved pairs at the two ends of the view group are pi/2 away
+                      // from the view's angle on either side, their orientation (sign of s) is not defined
+                      ++n_screen_v1; have_ref = false;
+                    }
                   if (have_ref)
                     {
                       if (ref.npairs >= 2) ++n_ge2;
@@ -367,7 +383,9 @@ static void check_bins(Run& run, const Geo& g)
                         run.viol("coords", "s", bs + "get_s=" + fstr(rep.s) + " but the line through the detectors has tangential offset " + fstr(ref.s));
                       if (std::fabs(rep.m - ref.m) > tol_len)
                         run.viol("coords", "m", bs + "get_m=" + fstr(rep.m) + " but the line through the detectors has axial mid-point " + fstr(ref.m));
-                      const double tol_t = 500 * EPSF * (1 + std::fabs(ref.tth));
+                      // tan(theta) = dz / (2 sqrt(R^2-s^2)): a relative float error eps in s is amplified by R^2/(R^2-s^2)
+                      const double cond = g.reff * g.reff / std::max(1e-9, g.reff * g.reff - ref.s * ref.s);
+                      const double tol_t = 500 * EPSF * (1 + std::fabs(ref.tth)) * std::max(1.0, cond);
                       if (complete && sym_range)
                         {
                           ++n_tth_avg;
@@ -424,14 +442,18 @@ static void check_bins(Run& run, const Geo& g)
                           break;
                         }
                       const double dt = p.get_tof_delta_time(b);
-                      for (int form = 0; form < 2; ++form)
+                      const int nforms = g.ge ? 3 : 2;
+                      for (int form = 0; form < nforms; ++form)
                         {
+                          // form 0: the LOR as reported; 1: the same LOR as the two points where it meets its cylinder;
+                          // 2 (blocks/generic): the two detector positions themselves
                           Bin nb;
                           bool threw = false, bad_cast = false;
+                          const std::string lorname = form == 0 ? "sino" : (form == 1 ? "points" : "detpoints");
                           try
                             {
                               if (form == 0) nb = p.get_bin(lor, dt);
-                              else
+                              else if (form == 1)
                                 {
                                   LORAs2Points<float> l2;
                                   if (lor.get_intersections_with_cylinder(l2, lor.radius()) == Succeeded::no)
@@ -441,11 +463,16 @@ static void check_bins(Run& run, const Geo& g)
                                     }
                                   nb = p.get_bin(l2, dt);
                                 }
+                              else
+                                {
+                                  if (dps.size() != 1) continue;
+                                  const rc::P3 &q1 = g.P(dps[0].pos1().tangential_coord(), dps[0].pos1().axial_coord()), &q2 = g.P(dps[0].pos2().tangential_coord(), dps[0].pos2().axial_coord());
+                                  nb = p.get_bin(LORAs2Points<float>(CartesianCoordinate3D<float>((float)q1.z, (float)q1.y, (float)q1.x), CartesianCoordinate3D<float>((float)q2.z, (float)q2.y, (float)q2.x)), dt);
+                                }
                             }
                           catch (std::bad_cast&) { threw = true; bad_cast = true; }
                           catch (std::exception& e) { threw = true; what = e.what(); }
                           ++n_rt;
-                          const std::string lorname = form == 0 ? "sino" : "points";
                           if (threw)
                             {
                               if (bad_cast)
@@ -458,23 +485,37 @@ static void check_bins(Run& run, const Geo& g)
                                 run.viol("roundtrip", "get_bin_refused;lor=" + lorname, "bin " + small::bin_str(b) + ": " + what.substr(0, 200));
                               continue;
                             }
+                          const bool in_ranges = nb.get_bin_value() <= 0
+                                                 || (seg_in(nb.segment_num()) && nb.view_num() >= 0 && nb.view_num() < V && nb.tangential_pos_num() >= tmin && nb.tangential_pos_num() <= tmax
+                                                     && nb.axial_pos_num() >= p.get_min_axial_pos_num(nb.segment_num()) && nb.axial_pos_num() <= p.get_max_axial_pos_num(nb.segment_num())
+                                                     && nb.timing_pos_num() >= kmin && nb.timing_pos_num() <= kmax);
+                          if (g.ac)
+                            {
+                              // arc-corrected: the same bin, nothing else
+                              if (nb.get_bin_value() > 0 && rpdi::same_bin(nb, b)) { ++n_exact; continue; }
+                              const std::string edge = v == 0 ? "firstview" : (v == V - 1 ? "lastview" : "inner");
+                              const std::string w = !in_ranges ? "bin_outside_data" : (nb.get_bin_value() <= 0 ? "miss" : "other_bin");
+                              run.viol("roundtrip", w + ";lor=" + lorname + ";view=" + edge + ";mashed=" + (g.vm > 1 ? "1" : "0"),
+                                       "arc-corrected bin " + small::bin_str(b) + " -> get_bin(get_LOR(bin)) = " + (nb.get_bin_value() <= 0 ? std::string("no bin") : small::bin_str(nb)) + " (" + std::to_string(V) + " views)");
+                              continue;
+                            }
+                          // detector based.  Interleaved bin whose central LOR runs between two ADJACENT detectors: both ends may round to the same detector
+                          const bool adjacent = g.na && tie && std::abs(t) == g.D / 2 - 1;
+                          if (!in_ranges)
+                            {
+                              run.viol("roundtrip", std::string(adjacent ? "adjacent_detectors" : "bin_outside_data") + ";lor=" + lorname, "bin " + small::bin_str(b) + " -> get_bin(get_LOR(bin)) = " + small::bin_str(nb) + ", which is not a bin of the data");
+                              continue;
+                            }
                           if (nb.get_bin_value() <= 0)
                             {
-                              if (g.ac)
-                                { run.viol("roundtrip", "arccorr_miss;lor=" + lorname, "bin " + small::bin_str(b) + ": get_bin(get_LOR(bin)) reports no bin"); continue; }
                               if (compressed && !complete) { ++n_miss_edge; continue; }
                               if (g.na && tie && (t == tmin || t == tmax)) { ++n_miss_tang; continue; }
-                              if (g.na && tie && (v == 0 || v == V - 1) && !seg_in(-seg)) { ++n_miss_wrapseg; continue; }
+                              if (g.na && tie && (v == 0 || v == V - 1) && !opposite_present) { ++n_miss_wrapseg; continue; }
                               run.viol("roundtrip", "miss;lor=" + lorname, "bin " + small::bin_str(b) + ": get_bin(get_LOR(bin)) reports that the line misses the scanner, but the bin is not an axially compressed bin at the axial edge ("
                                                                                + std::string(compressed ? "compressed, ring-pair set complete" : "not compressed") + ")");
                               continue;
                             }
                           if (rpdi::same_bin(nb, b)) { ++n_exact; continue; }
-                          if (g.ac)
-                            {
-                              run.viol("roundtrip", "arccorr_other_bin;lor=" + lorname, "bin " + small::bin_str(b) + " -> " + small::bin_str(nb));
-                              continue;
-                            }
                           const int dv = std::abs(nb.view_num() - b.view_num()), da = std::abs(nb.axial_pos_num() - b.axial_pos_num());
                           const bool plain = nb.segment_num() == b.segment_num() && nb.timing_pos_num() == b.timing_pos_num() && dv <= 1 && da <= 1
                                              && std::abs(nb.tangential_pos_num() - b.tangential_pos_num()) <= 1;
@@ -486,10 +527,14 @@ static void check_bins(Run& run, const Geo& g)
                           else
                             {
                               std::string w = "far";
-                              if (nb.segment_num() != b.segment_num() && !(ends && nb.segment_num() == -b.segment_num())) w = "segment";
-                              else if (nb.timing_pos_num() != b.timing_pos_num() && !(ends && nb.timing_pos_num() == -b.timing_pos_num())) w = "tof_bin";
-                              else if (ends && (nb.segment_num() != b.segment_num() || nb.timing_pos_num() != b.timing_pos_num() || b.segment_num() == 0)) w = "wrap_signs";
-                              run.viol("roundtrip", w + ";lor=" + lorname, "bin " + small::bin_str(b) + " -> get_bin(get_LOR(bin)) = " + small::bin_str(nb) + " (" + std::to_string(V) + " views)");
+                              const bool signs_plain = nb.segment_num() == b.segment_num() && nb.timing_pos_num() == b.timing_pos_num();
+                              const bool signs_wrap = nb.segment_num() == -b.segment_num() && nb.timing_pos_num() == -b.timing_pos_num();
+                              if (adjacent) w = "adjacent_detectors";
+                              else if (g.ge) w = "other_bin";
+                              else if (ends && !signs_wrap && !(signs_plain && V <= 2)) w = "wrap_signs"; // last <-> first view must reverse segment and TOF bin
+                              else if (!ends && !signs_plain) w = nb.segment_num() != b.segment_num() ? "segment" : "tof_bin";
+                              run.viol("roundtrip", w + ";lor=" + lorname, "bin " + small::bin_str(b) + " -> get_bin(get_LOR(bin)) = " + small::bin_str(nb) + " (" + std::to_string(V) + " views)"
+                                                                                + (adjacent ? "; the bin's central LOR runs between two adjacent detectors" : ""));
                             }
                         }
                     }
@@ -500,15 +545,15 @@ static void check_bins(Run& run, const Geo& g)
                   for (int t = tmin; t <= tmax; ++t)
                     {
                       const Rep& a = row[t - tmin];
-                      if (t < tmax && !(row[t + 1 - tmin].s > a.s + tol_len))
+                      if (t < tmax && !blocks && !(row[t + 1 - tmin].s > a.s + (g.ge ? -tol_len : 0.0)))
                         run.viol("symmetry", "s_not_increasing", "segment " + std::to_string(seg) + " axial " + std::to_string(ax) + " view " + std::to_string(v) + ": s(t=" + std::to_string(t) + ")=" + fstr(a.s) + ", s(t=" + std::to_string(t + 1) + ")=" + fstr(row[t + 1 - tmin].s));
-                      if (t > 0 && -t >= tmin && std::fabs(a.s + row[-t - tmin].s) > (g.ge ? 4e-3 + 2 * tol_len : 2 * tol_len))
+                      if (t > 0 && -t >= tmin && point_symmetric && std::fabs(a.s + row[-t - tmin].s) > (g.ge ? 4e-3 + 2 * tol_len : 2 * tol_len))
                         run.viol("symmetry", "s_not_antisymmetric", "segment " + std::to_string(seg) + " axial " + std::to_string(ax) + " view " + std::to_string(v) + ": s(t=" + std::to_string(t) + ")=" + fstr(a.s) + ", s(t=" + std::to_string(-t) + ")=" + fstr(row[-t - tmin].s));
                       if (g.ac && t < tmax && std::fabs(row[t + 1 - tmin].s - a.s - w_arc) > tol_len)
                         run.viol("uniform", "s_step", "arc-corrected: s(t=" + std::to_string(t + 1) + ")-s(t=" + std::to_string(t) + ")=" + fstr(row[t + 1 - tmin].s - a.s) + " but the tangential sampling is " + fstr(w_arc));
-                      if (have_prev_v && !(a.phi > prev_v[t - tmin].phi + tol_phi))
+                      if (have_prev_v && !blocks && !(a.phi > prev_v[t - tmin].phi + (g.ge ? -tol_phi : 0.0)))
                         run.viol("symmetry", "phi_not_increasing", "segment " + std::to_string(seg) + " axial " + std::to_string(ax) + " t " + std::to_string(t) + ": phi(view " + std::to_string(v - 1) + ")=" + fstr(prev_v[t - tmin].phi) + ", phi(view " + std::to_string(v) + ")=" + fstr(a.phi));
-                      if (have_prev_ax && !(a.m > prev_ax_m[(size_t)v * T + t - tmin] + tol_len))
+                      if (have_prev_ax && !(a.m > prev_ax_m[(size_t)v * T + t - tmin]))
                         run.viol("symmetry", "m_not_increasing", "segment " + std::to_string(seg) + " view " + std::to_string(v) + " t " + std::to_string(t) + ": m(axial " + std::to_string(ax) + ")=" + fstr(a.m) + " not above the previous axial position's " + fstr(prev_ax_m[(size_t)v * T + t - tmin]));
                       prev_ax_m[(size_t)v * T + t - tmin] = a.m;
                     }
@@ -567,6 +612,8 @@ static void check_bins(Run& run, const Geo& g)
   ctx.count("bins_tantheta_compared_with_pair_average", n_tth_avg);
   ctx.count("bins_interleaved", n_tie);
   ctx.count("bins_screened_s_outside_ring", n_screen);
+  ctx.count("bins_screened_single_mashed_view_interleaved", n_screen_v1);
+  ctx.count("bins_interleaved_between_adjacent_detectors", n_adjacent);
   ctx.count("generic_bins_reported_in_flipped_orientation", n_flip);
   ctx.count("detection_point_pairs_checked", n_points);
   ctx.count("bins_coordinates_refused_compressed_generic", n_coord_rejected);
@@ -597,7 +644,8 @@ static void run_coords(vmc::Ctx& ctx, const std::string& cs)
   const std::string family = g.ge ? "generic" : (g.ac ? "cylarc" : "cylnoarc");
   const std::string comp = c.ge ? "ge" : (!compressed ? "none" : (single ? "mixed" : (c.span % 2 ? "oddspan" : "evenspan")));
   const int tm = g.pdi->get_tof_mash_factor();
-  run.keybase = "family=" + family + ";comp=" + comp + ";vm=" + (g.vm > 1 ? "m" : "1") + ";tof=" + (tm == 0 ? "0" : (tm == 1 ? "1" : "m"));
+  run.keybase = "family=" + family;
+  (void)comp; (void)tm;
   if (g.vm > 1) ctx.count("configs_with_view_mashing");
   if (compressed) ctx.count("configs_with_axial_compression");
   if (g.ac) ctx.count("configs_arc_corrected");
@@ -624,6 +672,19 @@ static void run_coords(vmc::Ctx& ctx, const std::string& cs)
                 g.phi_centre[v] = near + r.dphi;
               }
           }
+        // The diagonal [d][d] of the (detector,detector)->(view,tangential position) table is never initialised by STIR; get_bin reads it when
+        // both ends of an LOR round to the same detector.  Own that nondeterminism: give the entries a fixed in-range value so that the
+        // outcome does not depend on the heap's history (a repaired get_bin never reads them).
+        if (g.na)
+          {
+            g.na->initialise_det1det2_to_uncompressed_view_tangpos_if_not_done_yet();
+            for (int d = 0; d < g.D; ++d) { auto& e = g.na->det1det2_to_uncompressed_view_tangpos[d][d]; e.view_num = 0; e.tang_pos_num = 0; e.swap_detectors = true; }
+          }
+        if (g.ge)
+          {
+            g.ge->initialise_det1det2_to_uncompressed_view_tangpos_if_not_done_yet();
+            for (int d = 0; d < g.D; ++d) { auto& e = g.ge->det1det2_to_uncompressed_view_tangpos[d][d]; e.view_num = 0; e.tang_pos_num = 0; e.swap_detectors = true; }
+          }
         check_tof(run, g);
         check_bins(run, g);
       }, &what))
@@ -645,7 +706,7 @@ static void run_arccorr(vmc::Ctx& ctx, const std::string& cs)
   const int na = atoi(m["na"].c_str()), bs = m.count("bs") ? atoi(m["bs"].c_str()) : 100;
   ctx.current("what=arccorr;geom=" + c.geom, cs);
   ctx.count("arccorr_configurations");
-  run.keybase = "family=cylnoarc;setup=" + std::string(na == 0 ? "auto" : (na < 0 ? "default" : "given"));
+  run.keybase = "family=cylnoarc";
   c.arc = 0; c.span = 1; c.md = 0; c.tm = 0; c.sr = 0; c.ge = 0;
   shared_ptr<Scanner> sc;
   shared_ptr<ProjDataInfo> pdi;
@@ -712,7 +773,7 @@ static void run_arccorr(vmc::Ctx& ctx, const std::string& cs)
         {
           ++n_cov;
           if (std::fabs(I - wt) > tol * (wt + M.w))
-            run.viol("arccorr", "integral_not_preserved", "unit row t=" + std::to_string(t) + " (bin width " + fstr(wt) + " mm): integral of the arc-corrected row is " + fstr(I));
+            run.viol("arccorr", std::string("integral_not_preserved;where=") + (M.in_hi(t) > M.out_lo(M.jmax) ? "overlaps_last_output_bin" : "other"), "unit row t=" + std::to_string(t) + " (bin width " + fstr(wt) + " mm): integral of the arc-corrected row is " + fstr(I));
         }
       else
         {
@@ -728,7 +789,7 @@ static void run_arccorr(vmc::Ctx& ctx, const std::string& cs)
         {
           ++n_int;
           if (std::fabs(o1 - 1.0) > tol || std::fabs(o2 - 2.5) > 2.5 * tol)
-            run.viol("arccorr", "uniform_not_uniform", "constant rows 1 and 2.5 give " + fstr(o1) + " and " + fstr(o2) + " in arc-corrected bin " + std::to_string(M.jmin + j) + ", which lies inside the input range");
+            run.viol("arccorr", std::string("uniform_not_uniform;where=") + (j == N - 1 ? "last_output_bin" : "other"), "constant rows 1 and 2.5 give " + fstr(o1) + " and " + fstr(o2) + " in arc-corrected bin " + std::to_string(M.jmin + j) + ", which lies inside the input range");
         }
       else
         {
@@ -817,6 +878,43 @@ static void add_arccorr(std::vector<std::string>& out, const Cfg& scanner, int D
       }
 }
 
+static void add_predefined(std::vector<std::string>& out, int type, const std::vector<int>& spans)
+{
+  shared_ptr<Scanner> sc;
+  if (small::throws([&] { sc.reset(new Scanner(static_cast<Scanner::Type>(type))); })) return;
+  const int D = sc->get_num_detectors_per_ring(), R = sc->get_num_rings(), T = sc->is_tof_ready() ? sc->get_max_num_timing_poss() : 0;
+  if (D < 4 || D % 2 || R < 1) return;
+  const bool cylindrical = sc->get_scanner_geometry() == "Cylindrical";
+  std::vector<int> tms{ 0 };
+  if (T > 0)
+    {
+      if (T % 2 == 1) tms.push_back(1);
+      for (int m = 3; m <= T; m += 2) if ((T / m) % 2 == 1 && T / m > 1) { tms.push_back(m); break; }
+    }
+  for (int span : spans)
+    for (int vm : { 1, 2 })
+      for (int tm : tms)
+        for (int arc : { 0, 1 })
+          {
+            if ((D / 2) % vm != 0 || span > 2 * R - 1) continue;
+            if (arc && (tm != tms.back() || !cylindrical)) continue;
+            if (!cylindrical && vm != 1) continue;
+            Cfg c; c.geom = "pre"; c.type = type; c.D = D; c.R = R; c.T = T; c.span = span; c.md = R - 1; c.vm = vm; c.nt = 0; c.tm = tm; c.arc = arc;
+            if (arc)
+              {
+                // default arc-corrected size, cut down where it would reach beyond the detector ring (get_LOR assert()s |s| < R)
+                const double w = sc->get_default_bin_size(), reff = sc->get_effective_ring_radius();
+                if (!(w > 0) || !(reff > 0)) continue;
+                c.nt = sc->get_default_num_arccorrected_bins();
+                const int fit = 2 * (int)std::floor(0.98 * reff / w) - 1;
+                if (c.nt <= 0 || c.nt > fit) c.nt = fit;
+                if (c.nt < 1) continue;
+              }
+            out.push_back("what=coords;" + c.str());
+          }
+  if (cylindrical) { Cfg s; s.geom = "pre"; s.type = type; s.D = D; s.R = R; add_arccorr(out, s, D, false); }
+}
+
 static std::vector<std::string> enumerate(bool thorough)
 {
   std::vector<std::string> out;
@@ -824,23 +922,18 @@ static std::vector<std::string> enumerate(bool thorough)
     Cfg b; b.geom = geom; b.D = D; b.R = R; b.T = T; b.mb = D - 1;
     add_samplings(out, b, full, few);
   };
-  // block 1: D <= 16, R <= 3 (thorough: R <= 4 and the full product of all options)
+  // block 1: D <= 16, R <= 3 (thorough: R <= 4): the full product of all sampling options
   for (int D : { 4, 6, 8, 12, 16 })
     for (int R : { 1, 2, 3, 4 })
       {
         if (R == 4 && !thorough) continue;
-        gen("cyl", D, R, 0, thorough);
-        if (R <= 3 && (D == 8 || D == 12 || thorough)) gen("cyl", D, R, 9, thorough && D <= 8 && R <= 2);
-        if (D >= 8) gen("blk", D, R, 0, thorough);
-        gen("gen", D, R, 0, thorough);
-        if (R == 1) { Cfg s; s.geom = "cyl"; s.D = D; s.R = 1; s.mb = D - 1; add_arccorr(out, s, D, thorough); }
+        gen("cyl", D, R, 0, true);
+        if (R <= 3 && (D == 8 || D == 12 || thorough)) gen("cyl", D, R, 9, (thorough && D <= 12) || (D == 8 && R <= 2));
+        if (D >= 8) gen("blk", D, R, 0, true);
+        gen("gen", D, R, 0, true);
+        if (R == 1) { Cfg s; s.geom = "cyl"; s.D = D; s.R = 1; s.mb = D - 1; add_arccorr(out, s, D, true); }
       }
-  if (!thorough) return out;
-  // block 2 (axial factor): small D, R up to 8, every span / max ring difference
-  for (int D : { 4, 8 })
-    for (int R : { 5, 6, 7, 8 }) gen("cyl", D, R, 0, false, true);
-  for (int R : { 5, 8 }) { gen("gen", 8, R, 0, false, true); gen("blk", 12, R, 0, false, true); }
-  // block 3 (transaxial factor): every even D up to 64 and five large values, few rings, view mashing and tangential sizes
+  // block 3 (transaxial factor): larger D, few rings, view mashing and tangential sizes
   auto trans = [&](int D, std::vector<int> Rs, std::vector<int> Ts, std::vector<int> vms) {
     for (int R : Rs)
       for (int T : Ts)
@@ -858,11 +951,7 @@ static std::vector<std::string> enumerate(bool thorough)
                     }
           }
   };
-  for (int D = 18; D <= 64; D += 2) trans(D, { 1, 2, 3 }, D % 8 == 0 ? std::vector<int>{ 0, 9 } : std::vector<int>{ 0 }, rpdi::divisors(D / 2));
-  for (int D : { 10, 14 }) trans(D, { 1, 2, 3 }, { 0 }, rpdi::divisors(D / 2));
-  for (int D : { 96, 128 }) trans(D, { 1, 3 }, { 0 }, rpdi::divisors(D / 2));
-  for (int D : { 256, 504, 1000 }) trans(D, { 1, 3 }, { 0 }, { 1, 2, 4, D / 2 });
-  for (int D : { 20, 24, 32, 48, 64 })
+  auto detgeo = [&](int D) {
     for (const char* gm : { "blk", "gen" })
       for (int R : { 1, 3 })
         for (int span : { 1, 3 })
@@ -871,33 +960,29 @@ static std::vector<std::string> enumerate(bool thorough)
             for (int nt : rpdi::uniq({ D - 1, D / 2, 3 }))
               { Cfg c; c.geom = gm; c.D = D; c.R = R; c.mb = D - 1; c.span = span; c.md = R - 1; c.nt = nt; out.push_back("what=coords;" + c.str()); }
           }
+  };
+  if (!thorough)
+    {
+      for (int D : { 24, 32 }) trans(D, { 1, 2, 3 }, { 0, 9 }, rpdi::divisors(D / 2));
+      for (int D : { 20, 24 }) detgeo(D);
+      for (int D : { 24, 32, 64 }) { Cfg s; s.geom = "cyl"; s.D = D; s.R = 1; s.mb = D - 1; add_arccorr(out, s, D, false); }
+      // four predefined scanners: intrinsic tilt (ECAT 953), TOF + tilt (GE Discovery 690), small (RATPET), blocks (SAFIR)
+      for (int type : { (int)Scanner::E953, (int)Scanner::Discovery690, (int)Scanner::RATPET, (int)Scanner::SAFIRDualRingPrototype }) add_predefined(out, type, { 1, 3 });
+      return out;
+    }
+  // block 2 (axial factor): small D, R up to 8, every span / max ring difference
+  for (int D : { 4, 8 })
+    for (int R : { 5, 6, 7, 8 }) gen("cyl", D, R, 0, false, true);
+  for (int R : { 5, 8 }) { gen("gen", 8, R, 0, false, true); gen("blk", 12, R, 0, false, true); }
+  for (int D = 18; D <= 64; D += 2) trans(D, { 1, 2, 3 }, D % 8 == 0 ? std::vector<int>{ 0, 9 } : std::vector<int>{ 0 }, rpdi::divisors(D / 2));
+  for (int D : { 10, 14 }) trans(D, { 1, 2, 3 }, { 0 }, rpdi::divisors(D / 2));
+  for (int D : { 96, 128 }) trans(D, { 1, 3 }, { 0 }, rpdi::divisors(D / 2));
+  for (int D : { 256, 504, 1000 }) trans(D, { 1, 3 }, { 0 }, { 1, 2, 4, D / 2 });
+  for (int D : { 20, 24, 32, 48, 64 }) detgeo(D);
   for (int D = 18; D <= 64; D += 2) { Cfg s; s.geom = "cyl"; s.D = D; s.R = 1; s.mb = D - 1; add_arccorr(out, s, D, false); }
   for (int D : { 96, 128, 256, 504 }) { Cfg s; s.geom = "cyl"; s.D = D; s.R = 1; s.mb = D - 1; add_arccorr(out, s, D, false); }
   // block 4: every predefined scanner, native D and R
-  for (int type = 0; type < (int)Scanner::User_defined_scanner; ++type)
-    {
-      shared_ptr<Scanner> sc;
-      if (small::throws([&] { sc.reset(new Scanner(static_cast<Scanner::Type>(type))); })) continue;
-      const int D = sc->get_num_detectors_per_ring(), R = sc->get_num_rings(), T = sc->is_tof_ready() ? sc->get_max_num_timing_poss() : 0;
-      if (D < 4 || D % 2 || R < 1) continue;
-      std::vector<int> tms{ 0 };
-      if (T > 0)
-        {
-          if (T % 2 == 1) tms.push_back(1);
-          for (int m = 3; m <= T; m += 2) if ((T / m) % 2 == 1 && T / m > 1) { tms.push_back(m); break; }
-        }
-      for (int span : { 1, 2, 3, 11 })
-        for (int vm : { 1, 2 })
-          for (int tm : tms)
-            for (int arc : { 0, 1 })
-              {
-                if ((D / 2) % vm != 0 || span > 2 * R - 1) continue;
-                if (arc && tm != tms.back()) continue;
-                Cfg c; c.geom = "pre"; c.type = type; c.D = D; c.R = R; c.T = T; c.span = span; c.md = R - 1; c.vm = vm; c.nt = 0; c.tm = tm; c.arc = arc;
-                out.push_back("what=coords;" + c.str());
-              }
-      { Cfg s; s.geom = "pre"; s.type = type; s.D = D; s.R = R; add_arccorr(out, s, D, false); }
-    }
+  for (int type = 0; type < (int)Scanner::User_defined_scanner; ++type) add_predefined(out, type, { 1, 2, 3, 11 });
   return out;
 }
 
@@ -918,6 +1003,7 @@ int main(int argc, char** argv)
   ctx.assume("arc-corrected data: get_bin has no TOF support (error), round trip for TOF bin 0 only; bins with |s| >= 0.999 ring radius are not evaluated (assert()-only precondition of get_LOR), counted");
   ctx.assume("blocks/generic with axial compression: STIR refuses coordinates and LORs with error(); recorded, not a failure");
   ctx.assume("arc correction: data are step functions; non-arc-corrected bin t covers [R sin((t-1/2) pi/D), R sin((t+1/2) pi/D)] (bins tile the tangential axis); integral = sum value*width; unit rows whose bin is partly outside the output range and output bins partly outside the input range only get one-sided checks");
+  ctx.assume("the never-initialised diagonal entries of STIR's det1det2_to_uncompressed_view_tangpos table are set to (view 0, tangential position 0) by the harness so that reads of them (get_bin with both LOR ends rounding to one detector) have a deterministic outcome");
   ctx.assume("axial trimming, set_ring_radii_for_all_views, non-zero bed positions and HiDAC-like non-ring data are not enumerated");
   if (ctx.replaying()) { run_case(ctx, ctx.replay); return ctx.finish(); }
   const std::vector<std::string> cfgs = enumerate(ctx.thorough());
